@@ -64,6 +64,7 @@ type script struct {
 	I        int    `json:"i"`
 	Steps    []step `json:"steps"`
 	Deadline int    `json:"deadline,omitempty"` // ms: the session context is context.WithTimeout(…)
+	Faulty   bool   `json:"faulty,omitempty"`   // the client's connection is a peer.FaultConn (read errors can be injected)
 	// hostile version negotiation: the peer answers Tversion with these bytes (hex), then closes if HSClose
 	Handshake string `json:"handshake,omitempty"`
 	HSClose   bool   `json:"hsclose,omitempty"`
@@ -108,7 +109,7 @@ func (c *child) obs(s sx.S) { c.emit("O", sx.String(s)) }
 var hangs int
 
 func (c *child) fail(key, what string) {
-	if strings.Contains(key, "hang") || strings.Contains(key, "no-return") || strings.Contains(key, "no-frame") || strings.Contains(key, "dead-after") {
+	if strings.Contains(key, "hang") || strings.Contains(key, "no-return") || strings.Contains(key, "no-frame") || strings.Contains(key, "dead-after") || strings.Contains(key, "stops-on") {
 		hangs++
 	}
 	b, _ := json.Marshal(map[string]string{"key": key, "what": what})
@@ -377,6 +378,33 @@ func (c *child) deadlineThenPlain(mtA, mtB uint8) {
 	}
 }
 
+// readFault: the connection's Read fails n times in a row with a net.Error that
+// is Timeout() and/or Temporary() (how = "tt", "tf", "ft").  The reader
+// goroutine must retry: nothing is lost, calls pending go on waiting, the
+// steps that follow (a new call, replies) work as if nothing had happened.
+func (c *child) readFault(how string, n int) {
+	if c.peer.Faults == nil {
+		return
+	}
+	rf := peer.ReadFault{NetError: true, IsTimeout: how[0] == 't', IsTemp: how[1] == 't'}
+	for i := 0; i < n; i++ {
+		c.ev(sx.L(sx.Sym("readretry")))
+		c.obs(sx.Sym("none"))
+		if !c.peer.Faults.Inject(rf) {
+			c.fail("transport.reader:stops-on-retryable-read-error", fmt.Sprintf("read error %d of %d in a row (net.Error, Timeout=%v, Temporary=%v): the client's reader goroutine never came back to read from the connection within %v", i+1, n, rf.IsTimeout, rf.IsTemp, peer.Wait))
+			c.broken = true
+			return
+		}
+	}
+	for _, id := range c.liveList() {
+		if r, done := c.live[id].Returned(); done {
+			c.fail("transport.reader:stops-on-retryable-read-error", fmt.Sprintf("call %d returned %s %q after a read error that is a net.Error with Timeout=%v, Temporary=%v: such an error must be retried, the connection is healthy", id, r.Class, r.Text, rf.IsTimeout, rf.IsTemp))
+			c.broken = true
+			return
+		}
+	}
+}
+
 // replyLive answers pending call number idx.
 func (c *child) replyLive(idx int, kind int, ty uint8) {
 	l := c.liveList()
@@ -529,6 +557,16 @@ func (c *child) failTransport(how string, garbage []byte) {
 		}
 		c.ev(sx.L(sx.Sym("ctxdone")))
 		c.obs(sx.Sym("none"))
+	case "readerr-ff", "readerr-plain":
+		// the connection's Read fails with a net.Error that is neither Timeout() nor
+		// Temporary(), or with an error that is no net.Error: fatal for the transport
+		c.ev(sx.L(sx.Sym("fatal")))
+		c.obs(sx.Sym("none"))
+		if c.peer.Faults == nil || !c.peer.Faults.Inject(peer.ReadFault{NetError: how == "readerr-ff"}) {
+			c.fail("harness.inject", "the read fault could not be delivered: the client is not reading")
+			c.broken = true
+			return
+		}
 	case "close":
 		c.peer.Conn.Close()
 		c.ev(sx.L(sx.Sym("fatal")))
@@ -711,7 +749,7 @@ func runScript(out *bufio.Writer, s script) {
 		c.ctx, c.stop = context.WithTimeout(context.Background(), time.Duration(s.Deadline)*time.Millisecond)
 		c.deadline = true
 	}
-	sess, p, err := peer.Dial(c.ctx)
+	sess, p, err := peer.DialFaulty(c.ctx, s.Faulty)
 	if err != nil {
 		if c.deadline && c.ctx.Err() != nil {
 			c.emit("X", "deadline passed during the version negotiation")
@@ -743,6 +781,8 @@ func runScript(out *bufio.Writer, s script) {
 			c.stall(st.MT, st.Ty, uint8(st.N))
 		case "dlcall":
 			c.deadlineThenPlain(st.MT, st.Ty)
+		case "readfault":
+			c.readFault(st.How, st.N)
 		case "fail":
 			g, _ := hex.DecodeString(st.Bytes)
 			c.failTransport(st.How, g)
@@ -917,7 +957,18 @@ func genHandshake(rng *prng.R, i int) script {
 }
 
 func genScript(rng *prng.R, i int, decoderDefects bool, deadline bool, dlcall bool) script {
+	sc := genScript1(rng, i, decoderDefects, deadline, dlcall)
+	for _, st := range sc.Steps {
+		if st.Op == "readfault" || (st.Op == "fail" && strings.HasPrefix(st.How, "readerr")) {
+			sc.Faulty = true
+		}
+	}
+	return sc
+}
+
+func genScript1(rng *prng.R, i int, decoderDefects bool, deadline bool, dlcall bool) script {
 	var st []step
+	faulty := !deadline && !dlcall && rng.Chance(1, 4) // read errors of the connection itself
 	dlLive := 0
 	if dlcall {
 		// a call under a context deadline, the deadline passes, then a call without one
@@ -953,6 +1004,15 @@ func genScript(rng *prng.R, i int, decoderDefects bool, deadline bool, dlcall bo
 			live--
 		case x < 72 && live > 0:
 			st = append(st, step{Op: "cancel", Idx: rng.Intn(16)})
+			live--
+		case faulty && x >= 88:
+			// the connection's Read fails, retryably, once or several times in a row; then a call and a reply
+			st = append(st, step{Op: "readfault", How: []string{"tt", "tf", "ft"}[rng.Intn(3)], N: rng.Pick(1, 1, 2, 3, 5)})
+			if live < 16 {
+				st = append(st, step{Op: "req", MT: peer.Methods[rng.Intn(len(peer.Methods))]})
+				live++
+			}
+			st = append(st, step{Op: "reply", Idx: rng.Intn(16), Kind: 0})
 			live--
 		case x < 77:
 			// a write that fails on a healthy connection; whatever follows must still be written
@@ -990,8 +1050,11 @@ func genScript(rng *prng.R, i int, decoderDefects bool, deadline bool, dlcall bo
 			kinds = append(kinds, "tinysize", "shortbody", "baddir", "hugecount")
 		}
 		how := kinds[rng.Intn(len(kinds))]
+		if faulty && rng.Chance(1, 2) {
+			how = []string{"readerr-ff", "readerr-plain"}[rng.Intn(2)]
+		}
 		f := step{Op: "fail", How: how}
-		if how != "close" && how != "ctx" {
+		if how != "close" && how != "ctx" && !strings.HasPrefix(how, "readerr") {
 			f.Bytes = hex.EncodeToString(malformed(rng, how, decoderDefects))
 		}
 		st = append(st, f)
@@ -1214,7 +1277,7 @@ func main() {
 		nt := false
 		label := "nofail"
 		for _, st := range scripts[i].Steps {
-			if st.Op == "stray" || st.Op == "stall" || st.Op == "dlcall" || st.Op == "wfail" || (st.Op == "reply" && st.Kind >= 2) {
+			if st.Op == "stray" || st.Op == "stall" || st.Op == "dlcall" || st.Op == "readfault" || st.Op == "wfail" || (st.Op == "reply" && st.Kind >= 2) {
 				nt = true
 			}
 			if st.Op == "fail" {
